@@ -180,3 +180,23 @@ impl ReplSession {
         }
     }
 }
+
+/// Run a compiled entry on a 1-worker SimNet with a step cap (unlike execute_bytecode_sync this
+/// cannot spin forever on a program that blocks in a select).
+pub fn run_capped(bc: &Bytecode, b: &Builtins, max_actions: usize) -> qv::RunOutcome {
+    let mut sim = Sim::new(1, b, false, None);
+    sim.set_logging(false);
+    let Ok(st) = start_program(&mut sim, bc.clone()) else { return qv::RunOutcome::Panic("start failed".into()) };
+    let mut rng = crate::rng::Rng::new(1);
+    let end = sim.run(Strategy::Eager, QuantumPolicy::Fixed(1000), &mut rng, max_actions, &|| false, &mut |_s| false);
+    if let RunEnd::Trouble(t) = &end { return qv::RunOutcome::Panic(format!("{:?}", t)); }
+    match poll_root(&mut sim, &st) {
+        Some(r) => match canon_root(&sim, &r, st.pid) { Fate::Done(v) => qv::RunOutcome::Value(v), Fate::Failed(e) => qv::RunOutcome::Error(e), Fate::Running => qv::RunOutcome::Panic("no result".into()) },
+        None => qv::RunOutcome::Panic(format!("no result ({:?})", end)),
+    }
+}
+
+pub fn run_source_capped(src: &str, b: &Builtins, max_actions: usize) -> Result<qv::RunOutcome, qv::CompileErr> {
+    let bc = compile_entry(src, b)?;
+    Ok(run_capped(&bc, b, max_actions))
+}
